@@ -78,6 +78,8 @@ ID_SCHEMES = {
     "digit_boundary": lambda i, n: str(8 + i),  # "8", "9", "10", "11": text order 10 < 11 < 8 < 9
     # ids in arrival order, and the file also has the OPTIONAL columns (fleet_id, allows_pooling) with every cell left blank
     "blank_optional_columns": lambda i, n: str(i),
+    # ids in arrival order, the file saved with a UTF-8 byte order mark (what spreadsheet programs write; the shipped vehicles file has one)
+    "byte_order_mark": lambda i, n: str(i),
 }
 
 
@@ -110,6 +112,8 @@ def write_requests(path: str, deps: Tuple[int, ...], scheme: str = "arrival_orde
     dlat, dlon = h3.h3_to_geo(S["M1"])
     with open(path, "w") as f:
         extra = scheme == "blank_optional_columns"
+        if scheme == "byte_order_mark":
+            f.write("\ufeff")
         f.write("request_id,o_lat,o_lon,d_lat,d_lon,departure_time,passengers" + (",fleet_id,allows_pooling" if extra else "") + "\n")
         for i, d in enumerate(deps):
             f.write(f"{ID_SCHEMES[scheme](i, len(deps))},{olat!r},{olon!r},{dlat!r},{dlon!r},{d},1" + (",," if extra else "") + "\n")
@@ -157,7 +161,7 @@ def _req_shard(shard) -> Dict[str, Any]:
         cfg = make_config(step=step, cancel=timeout, start=start, end=start + 100 * step)
         req_file = os.path.join(d, "req.csv")
         for deps in request_cases(step, start, timeout, maxlen):
-            for scheme in (("arrival_order", "blank_optional_columns") if len(deps) < 2 else tuple(ID_SCHEMES)):
+            for scheme in (("arrival_order", "blank_optional_columns", "byte_order_mark") if len(deps) < 2 else tuple(ID_SCHEMES)):
                 out["cases"] += 1
                 write_requests(req_file, deps, scheme)
                 want_adds, want_cancels = ref_requests(deps, step, start, timeout, NSTEPS, scheme)
@@ -281,8 +285,10 @@ def _admissible(got: float, allowed) -> bool:
     return any(abs(got - a) <= 1e-12 for a in allowed)
 
 
-def write_prices(path: str, seq, family: str):
+def write_prices(path: str, seq, family: str, bom: bool = False):
     with open(path, "w") as f:
+        if bom:
+            f.write("\ufeff")  # saved with a UTF-8 byte order mark
         f.write("time,%s,charger_id,price_kwh\n" % ("station_id" if family == "id" else "geoid"))
         for i, (t, tg, plug, price) in enumerate(seq):
             f.write(f"{t},{tg},{plug},{price}\n")
@@ -323,15 +329,17 @@ def _price_shard(shard) -> Dict[str, Any]:
             want = ref_prices(seq, family, step, start, 5)
             if any(v != {0.0} for v in want[-1].values()):
                 out["nontrivial"] += 1
-            for lazy in (False, True):
+            # (reading mode, saved with a byte order mark): tables of one row are also read from a file that starts with a BOM
+            for lazy, bom in ((False, False), (True, False)) + (((False, True), (True, True)) if len(seq) == 1 else ()):
                 out["runs"] += 1
                 covers_all = None
+                write_prices(pf, seq, family, bom)
                 try:
                     got = run_updates(cfg, req_file, pf, lazy, mks, 5)
                 except Exception as e:
                     out["findings"].setdefault(
-                        ("price_exception", type(e).__name__, family),
-                        (f"{type(e).__name__}: {e} while applying price table {seq} (step {step}, start {start}): the run stops", {"seq": [list(r) for r in seq], "lazy": lazy}),
+                        ("price_exception", type(e).__name__, family) + (("byte_order_mark",) if bom else ()),
+                        (f"{type(e).__name__}: {e} while applying price table {seq} (step {step}, start {start}{', file saved with a byte order mark' if bom else ''}): the run stops", {"seq": [list(r) for r in seq], "lazy": lazy, "bom": bom}),
                     )
                     continue
                 for k, (t, _, _, prices, _, _) in enumerate(got):
@@ -347,8 +355,8 @@ def _price_shard(shard) -> Dict[str, Any]:
                                 named.update(s for s, g in cells.items() if h3.h3_to_parent(g, res) == tg)
                         kind = "unnamed_station_repriced" if any(k2.split("/")[0] not in named for k2 in diff) else "wrong_price_or_time"
                         out["findings"].setdefault(
-                            ("price", kind, family),
-                            (f"after the step beginning {t}: (got, expected) {diff} for table {seq} (step {step}, start {start})", {"seq": [list(r) for r in seq], "lazy": lazy}),
+                            ("price", kind, family) + (("byte_order_mark",) if bom else ()),
+                            (f"after the step beginning {t}: (got, expected) {diff} for table {seq} (step {step}, start {start}{', file saved with a byte order mark' if bom else ''})", {"seq": [list(r) for r in seq], "lazy": lazy, "bom": bom}),
                         )
                         break
             if len(out["samples"]) < 1 and len(seq) >= 2:
@@ -443,8 +451,8 @@ def replay(body) -> int:
             write_requests(f, ())
             pf = os.path.join(d, "p.csv")
             seq = tuple(tuple(r) for r in rp["seq"])
-            write_prices(pf, seq, rp["family"])
-            print(open(pf).read())
+            write_prices(pf, seq, rp["family"], rp.get("bom", False))
+            print(repr(open(pf).read()))
             want = ref_prices(seq, rp["family"], rp["step"], rp["start"], 5)
             mks, _, _, _ = price_world()
             try:
